@@ -117,6 +117,20 @@ def run(ck):
         except (lf.SingularMatrixError, lf.NotEnoughPointsError, ValueError) as e:
             ck.discard('implementation raised %s on generated data' % type(e).__name__)
             continue
+        # the property is about non-degenerate data: a 'general' fit of (nearly) collinear retained points is
+        # ill-conditioned beyond the stated tolerances (and exactly collinear ones are C17's domain, finding K1)
+        if pr['geom'] == 'general':
+            from fractions import Fraction
+            from pC06 import rel_det
+            degenerate = False
+            for mk in {tuple(e['mask']) for e in trace}:
+                sub = {key: (None if pr[key] is None else [v for v, keep in zip(pr[key], mk) if keep])
+                       for key in ('xy', 'uv', 'wxy', 'wuv')}
+                if rel_det(sub) < Fraction(1, 2 ** 20):
+                    degenerate = True
+            if degenerate:
+                ck.discard('general fit of (nearly) collinear retained points (relative determinant < 2^-20)')
+                continue
         # python-side structural predicates (same points everywhere)
         for e in trace:
             ck.search_evaluations += 1
